@@ -272,6 +272,11 @@ impl FileFormatter {
         write.write_all(&encoded_output)?;
         len += encoded_output.len();
 
+        // stdout is line buffered: whatever follows the last newline (the second byte of a
+        // UTF-16LE line feed, a result without a final newline) would otherwise stay buffered
+        // until the process exits, where a failure to write it is silently ignored.
+        write.flush()?;
+
         Ok(len as u64)
     }
 
